@@ -8,6 +8,7 @@ import FractopoModel.Model.Contacts
 import FractopoModel.Model.Relationships
 import FractopoModel.Spec.Validators
 import FractopoModel.Spec.Defects
+import FractopoModel.Model.Grid
 /-!
 # Model driver: runs the hand-written models and specs (never the regenerated
 definitions, so that it builds whatever the state of /repo) behind a line protocol.
@@ -216,6 +217,26 @@ def intersect (a : Args) : Option String := do
     | .ok (x, y) => s!"sets={x}{y}"
     | .error _ => "sets=error")
 
+/-- `grid xmin= ymin= xmax= ymax= w=`: rows, cols and the column-major cell list (exact) -/
+def grid (a : Args) : Option String := do
+  let xmin ← (a.get? "xmin") >>= parseRat?
+  let ymin ← (a.get? "ymin") >>= parseRat?
+  let xmax ← (a.get? "xmax") >>= parseRat?
+  let ymax ← (a.get? "ymax") >>= parseRat?
+  let w ← (a.get? "w") >>= parseRat?
+  if w ≤ 0 then none
+  let rows := ((ymax - ymin) / w).ceil.toNat
+  let cols := ((xmax - xmin) / w).ceil.toNat
+  let cs := Grid.cells xmin ymax w rows cols
+  some s!"rows={rows} cols={cols} cells={";".intercalate (cs.map fun c => s!"{showRat c.left},{showRat c.bottom},{showRat c.right},{showRat c.top}")}"
+
+/-- `inarea areas= pts=x,y;x,y`: 2 strictly inside, 1 on a boundary, 0 outside (union of polygons) -/
+def inarea (a : Args) : Option String := do
+  let areas ← (a.get? "areas") >>= parseArea?
+  let pts ← (a.get? "pts") >>= parseLine?
+  let polys := allPolys areas
+  some s!"in={",".intercalate (pts.map fun p => if polys.any (·.onBoundary p) then "1" else if polys.any (·.containsStrict p) then "2" else "0")}"
+
 /-- `defects traces=`: documented defect strings per trace on a crisp configuration -/
 def defects (a : Args) : Option String := do
   let traces ← (a.get? "traces") >>= parseLines?
@@ -286,6 +307,8 @@ def dispatch (line : String) : String :=
       | "rel" => Cmd.rel a
       | "validate" => Cmd.validate a
       | "defects" => Cmd.defects a
+      | "grid" => Cmd.grid a
+      | "inarea" => Cmd.inarea a
       | "intersect" => Cmd.intersect a
       | "bweight" => Cmd.bweight a
       | _ => some s!"error=unknown-command:{cmd}"
